@@ -11,8 +11,10 @@ returned iterable is consumed (`iter`: every yielded piece is passed to `write`,
 ends by raising, and whether the iterable has `close`. An exception raised *by* `start_response` /
 `write` (AssertionError, the re-raised `exc_info`) is assumed to propagate out of the application.
 
-As coded, including the truthiness tests: `elif headers_set:`, `if headers_sent:` (in
-`start_response`) and `if not headers_sent:` (in `execute`) treat an empty header list like `None`.
+As coded after fix bc55b83 (F19c): `start_response` tests `headers_sent is not None` /
+`headers_set is not None` and `execute` tests `headers_sent is None`, so an empty header list is a
+header list (before the fix these were truthiness tests and an empty list counted as "nothing set /
+sent yet").
 
 Outside the model: `connection_dropped_errors`, `passthrough_errors`, the post-response drain of the
 socket, logging; `int(code_str)` is taken on a digit string (`Resp.code`).
@@ -23,7 +25,7 @@ open Wz Wz.Chunked Wz.DevServer
 
 /-- one thing the application does -/
 inductive Ev where
-  /-- `start_response(status, headers, exc_info)`; `excInfo` = a (truthy) exc_info triple was passed -/
+  /-- `start_response(status, headers, exc_info)`; `excInfo` = an exc_info triple was passed -/
   | start (status : Str) (headers : List (Str × Str)) (excInfo : Bool)
   /-- `write(data)` — called directly or by `execute` for a yielded piece -/
   | emit (data : Bytes)
@@ -50,11 +52,6 @@ structure HState where
   /-- ghost: the terminating zero chunk has been written -/
   done : Bool := false
 
-/-- Python truthiness of `None | list` -/
-def truthy {α : Type} : Option (List α) → Bool
-  | some (_ :: _) => true
-  | _ => false
-
 def respOf (c : Conf) (status : Str) (headers : List (Str × Str)) : Resp :=
   ⟨c.protocol, status, c.serverHeaders, headers, c.isHead⟩
 
@@ -66,9 +63,9 @@ def frame (chunked : Bool) (d : Bytes) : Bytes :=
 def step (c : Conf) (st : HState) : Ev → Option HState
   | .start status headers exc =>
     if exc then
-      if truthy st.headersSent then none                -- `raise exc_info[1]`
+      if st.headersSent.isSome then none                -- `raise exc_info[1]`
       else some { st with statusSet := some status, headersSet := some headers }
-    else if truthy st.headersSet then none              -- AssertionError("Headers already set")
+    else if st.headersSet.isSome then none              -- AssertionError("Headers already set")
     else some { st with statusSet := some status, headersSet := some headers }
   | .emit data =>
     match st.statusSet, st.headersSet with
@@ -109,8 +106,8 @@ def execute (c : Conf) (st : HState) (a : AppRun) : HState × Nat × Bool :=
     let cl := if a.closable then 1 else 0
     if r2 || a.iterRaises then (st2, cl, true)
     else
-      -- `if not headers_sent: write(b"")`
-      match (if truthy st2.headersSent then some st2 else step c st2 (.emit [])) with
+      -- `if headers_sent is None: write(b"")`
+      match (if st2.headersSent.isSome then some st2 else step c st2 (.emit [])) with
       | none => (st2, cl, true)
       | some st3 =>
         -- `if chunk_response: self.wfile.write(b"0\r\n\r\n")`
